@@ -3,6 +3,10 @@ type nat =
 | O
 | S of nat
 
+val fst : ('a1 * 'a2) -> 'a1
+
+val snd : ('a1 * 'a2) -> 'a2
+
 val length : 'a1 list -> nat
 
 val app : 'a1 list -> 'a1 list -> 'a1 list
@@ -12,15 +16,27 @@ type comparison =
 | Lt
 | Gt
 
+val compOpp : comparison -> comparison
+
 val add : nat -> nat -> nat
+
+val sub : nat -> nat -> nat
+
+val rev : 'a1 list -> 'a1 list
+
+val map : ('a1 -> 'a2) -> 'a1 list -> 'a2 list
 
 val flat_map : ('a1 -> 'a2 list) -> 'a1 list -> 'a2 list
 
-val existsb : ('a1 -> bool) -> 'a1 list -> bool
+val fold_left : ('a1 -> 'a2 -> 'a1) -> 'a2 list -> 'a1 -> 'a1
 
 val firstn : nat -> 'a1 list -> 'a1 list
 
 val skipn : nat -> 'a1 list -> 'a1 list
+
+val seq : nat -> nat -> nat list
+
+val repeat : 'a1 -> nat -> 'a1 list
 
 type positive =
 | XI of positive
@@ -86,6 +102,10 @@ module Coq_Pos :
 
 module N :
  sig
+  val succ_double : n -> n
+
+  val double : n -> n
+
   val add : n -> n -> n
 
   val sub : n -> n -> n
@@ -96,11 +116,15 @@ module N :
 
   val eqb : n -> n -> bool
 
-  val ltb : n -> n -> bool
+  val leb : n -> n -> bool
 
-  val min : n -> n -> n
+  val pos_div_eucl : positive -> n -> n * n
 
-  val max : n -> n -> n
+  val div_eucl : n -> n -> n * n
+
+  val div : n -> n -> n
+
+  val modulo : n -> n -> n
 
   val to_nat : n -> nat
 
@@ -109,7 +133,27 @@ module N :
 
 module Z :
  sig
+  val double : z -> z
+
+  val succ_double : z -> z
+
+  val pred_double : z -> z
+
+  val pos_sub : positive -> positive -> z
+
+  val add : z -> z -> z
+
   val opp : z -> z
+
+  val sub : z -> z -> z
+
+  val mul : z -> z -> z
+
+  val compare : z -> z -> comparison
+
+  val leb : z -> z -> bool
+
+  val ltb : z -> z -> bool
 
   val eqb : z -> z -> bool
 
@@ -120,225 +164,55 @@ module Z :
   val of_nat : nat -> z
 
   val of_N : n -> z
+
+  val pos_div_eucl : positive -> z -> z * z
+
+  val div_eucl : z -> z -> z * z
+
+  val modulo : z -> z -> z
  end
 
-val kMagicSize : n
+val split_at : z -> z list -> z list -> z list list * z list
 
-val kInputBuffer : n
+val strip_cr : z list -> z list
 
-val gz_kMinOutput : n
+val records : z -> bool -> z list -> z list list
 
-val bz_kMinOutput : n
+val unrecords : z -> z list list -> z list
 
-val compressed_buffer : n
+val shard_seed : n
 
-val kSizeMax : n
+val kBlockSize : n
 
-val gzc_initial : n
+val shard_strip_cr : bool
 
-val gzc_increment : n
+val index : (z list -> n) -> n -> z list -> n
 
-val dirty_initial : bool
+val update : 'a1 list -> nat -> ('a1 -> 'a1) -> 'a1 list
 
-val bz_read_stall_check : bool
+val shard_step :
+  (z list -> n) -> n -> z list list list -> z list -> z list list list
 
-val gz_magic : z list
+val shard : (z list -> n) -> n -> z list list -> z list list list
 
-val bz_magic : z list
+val shard_bytes : z list list -> z list
 
-val xz_magic : z list
+val shard_tool : (z list -> n) -> n -> z list -> z list list
 
-val bZ_FINISH : z
+val chunks : nat -> nat -> z list -> z list list
 
-val bZ_RUN : z
+val blocks : z list -> z list list
 
-val bZ_STREAM_END : z
+val digits_loop : nat -> n -> n -> n
 
-val lZMA_FINISH : z
+val u32N : z -> n
 
-val lZMA_RUN : z
+val digits_of : n -> n
 
-val lZMA_STREAM_END : z
+val dec_loop : nat -> n -> z list -> z list
 
-val z_FINISH : z
+val decimal : n -> z list
 
-val z_NO_FLUSH : z
+val pad : n -> n -> z list
 
-val z_OK : z
-
-val gz_read_continue : z list
-
-val gz_read_end : z list
-
-val gz_finish_done : z list
-
-val gz_finish_again : z list
-
-val bz_fine : z list
-
-val bz_finish_done : z list
-
-val bz_finish_again : z list
-
-val xz_fine : z list
-
-val len : 'a1 list -> n
-
-val takeN : n -> 'a1 list -> 'a1 list
-
-val dropN : n -> 'a1 list -> 'a1 list
-
-val is_nil : 'a1 list -> bool
-
-type kind =
-| KGz
-| KBz
-| KXz
-
-val mem : z -> z list -> bool
-
-val starts_with : z list -> z list -> bool
-
-val detect_magic : z list -> kind option
-
-type frags = z list list
-
-val partial_read : frags -> n -> z list * frags
-
-val read_or_eof_loop : nat -> frags -> n -> z list * frags
-
-val read_or_eof : frags -> n -> z list * frags
-
-type 's cres = { c_st : 's; c_used : n; c_out : z list; c_rc : z }
-
-type pstep =
-| PContinue
-| PEnd
-| PThrow
-
-val process_read : kind -> z -> bool -> bool -> pstep
-
-val read_action : kind -> bool -> z
-
-type rerr =
-| EGz
-| EBz
-| EXz
-| ECompressed
-| EHang
-
-val err_of : kind -> rerr
-
-type 'dstate reader =
-| RComplete
-| RPlain
-| RHeader of z list
-| RStream of kind * 'dstate * z list * bool
-
-type ('world, 'dstate) rstate = { r_file : frags; r_world : 'world;
-                                  r_rd : 'dstate reader }
-
-type ('world, 'dstate) rres =
-| ROk of z list * ('world, 'dstate) rstate
-| RErr of rerr
-
-val read_factory :
-  ('a1 -> kind -> 'a2 * 'a1) -> frags -> 'a1 -> z list -> bool -> (('a2
-  reader * frags) * 'a1) option
-
-val rd :
-  ('a1 -> kind -> 'a2 * 'a1) -> (kind -> 'a2 -> z -> z list -> n -> 'a2 cres)
-  -> nat -> ('a1, 'a2) rstate -> n -> ('a1, 'a2) rres
-
-val rc_open :
-  ('a1 -> kind -> 'a2 * 'a1) -> frags -> 'a1 -> ('a1, 'a2) rstate option
-
-type allres =
-| AOk of z list * n list
-| AErr of rerr * z list * n list
-
-val read_all :
-  ('a1 -> kind -> 'a2 * 'a1) -> (kind -> 'a2 -> z -> z list -> n -> 'a2 cres)
-  -> nat -> nat -> ('a1, 'a2) rstate -> (nat -> n) -> nat -> allres
-
-val read_file :
-  ('a1 -> kind -> 'a2 * 'a1) -> (kind -> 'a2 -> z -> z list -> n -> 'a2 cres)
-  -> nat -> nat -> frags -> 'a1 -> (nat -> n) -> allres
-
-val min_output : kind -> n
-
-val buf_size : kind -> n
-
-val run_flag : kind -> z
-
-val finish_flag : kind -> z
-
-val run_ok : kind -> z -> bool
-
-type fstep =
-| FDone
-| FAgain
-| FThrow
-
-val finish_step : kind -> z -> fstep
-
-type wop =
-| OpWrite of z list
-| OpFlush
-
-val op_data : wop -> z list
-
-type 'estate wstate = { w_file : z list; w_buf : z list; w_est : 'estate;
-                        w_dirty : bool }
-
-type 'estate wres =
-| WOk of 'estate wstate
-| WErr of bool
-
-val avail_out : kind -> 'a1 wstate -> n
-
-val ensure_output : kind -> 'a1 wstate -> 'a1 wstate
-
-val write_loop :
-  (kind -> 'a1 -> z -> z list -> n -> 'a1 cres) -> nat -> kind -> 'a1 wstate
-  -> z list -> 'a1 wres
-
-val ws_write :
-  (kind -> 'a1 -> z -> z list -> n -> 'a1 cres) -> nat -> kind -> 'a1 wstate
-  -> z list -> 'a1 wres
-
-val flush_loop :
-  (kind -> 'a1 -> z -> z list -> n -> 'a1 cres) -> nat -> kind -> 'a1 wstate
-  -> 'a1 wres
-
-val ws_flush :
-  (kind -> 'a1 -> 'a1) -> (kind -> 'a1 -> z -> z list -> n -> 'a1 cres) ->
-  nat -> kind -> 'a1 wstate -> 'a1 wres
-
-val run_ops :
-  (kind -> 'a1 -> 'a1) -> (kind -> 'a1 -> z -> z list -> n -> 'a1 cres) ->
-  nat -> kind -> 'a1 wstate -> wop list -> 'a1 wres
-
-type fileres =
-| FileOk of z list
-| FileErr of bool
-
-val write_session :
-  ('a1 -> kind -> 'a2 * 'a1) -> (kind -> 'a2 -> 'a2) -> (kind -> 'a2 -> z ->
-  z list -> n -> 'a2 cres) -> nat -> kind -> 'a1 -> wop list -> fileres
-
-val gzc_ensure : z list -> n -> n
-
-val gzc_pre :
-  (kind -> 'a1 -> z -> z list -> n -> 'a1 cres) -> nat -> 'a1 -> z list -> z
-  list -> n -> ((('a1 * z list) * z list) * n) option option
-
-val gzc_finish :
-  (kind -> 'a1 -> z -> z list -> n -> 'a1 cres) -> nat -> 'a1 -> z list -> z
-  list -> n -> fileres
-
-val gz_compress :
-  ('a1 -> kind -> 'a2 * 'a1) -> (kind -> 'a2 -> z -> z list -> n -> 'a2 cres)
-  -> nat -> 'a1 -> z list -> fileres
-
-val write_plain : wop list -> z list
+val names : z list -> n -> z list list
